@@ -114,6 +114,16 @@ func outputQueryAndErrPos(query string, pos int, adjust int) string {
 	qlen := len(tquery)
 	if pos == -1 {
 		pos = qlen
+	} else {
+		// The position is an offset into the original query but the trimmed
+		// query is shown: shift it by the leading blanks that were removed
+		pos -= strings.Index(query, tquery)
+		if pos < 0 {
+			pos = 0
+		}
+		if pos > qlen {
+			pos = qlen
+		}
 	}
 	trimLeft := false
 	trimRight := false
